@@ -625,7 +625,9 @@ func (n *live) persistAndSend(rd *raft.Ready, eff *effects) {
 				break
 			}
 			switch {
-			case m.Type == pb.MsgVoteResp && !m.Reject && (n.durTerm != m.Term || n.durVote != m.To):
+			// (a grant for term T is covered by a durable state of term T with that vote, and by any
+			// durable state of a later term: a node that comes back in term T+1 ignores term-T requests)
+			case m.Type == pb.MsgVoteResp && !m.Reject && (n.durTerm < m.Term || (n.durTerm == m.Term && n.durVote != m.To)):
 				eff.unsynced = fmt.Sprintf("grants its vote to %d in term %d (MsgVoteResp) while the last state written with MustSync is term %d vote %d (this Ready: MustSync=%v, HardState %+v)", m.To, m.Term, n.durTerm, n.durVote, rd.MustSync, rd.HardState)
 			case m.Type == pb.MsgAppResp && !m.Reject && m.Index > n.durLast:
 				eff.unsynced = fmt.Sprintf("acknowledges index %d to %d (MsgAppResp, term %d) while the log written with MustSync ends at %d (this Ready: MustSync=%v, %d entries)", m.Index, m.To, m.Term, n.durLast, rd.MustSync, len(rd.Entries))
